@@ -55,15 +55,36 @@ pub struct Corpus {
     pub shared_index: Option<(String, Vec<u8>)>,
 }
 
-pub fn build(root: &Path) -> Corpus {
-    let mut seeds: Vec<Seed> = Vec::new();
-    let mut add = |format: &'static str, name: &str, bytes: Vec<u8>, thorough_only: bool| {
-        if bytes.is_empty() {
-            vkit::machinery!("seed {format}/{name} is empty");
-        }
-        seeds.push(Seed { format, name: name.to_string(), bytes, thorough_only });
-    };
+fn mk_repo(root: &Path, name: &str) -> PathBuf {
+    let d = root.join(name);
+    vkit::git::init(&d);
+    write(d.join("a"), b"a\n");
+    write(d.join("b/c"), b"c\n");
+    write(d.join("b/d"), b"d\n");
+    write(d.join("e/f/g"), b"g\n");
+    git(&d, &["add", "."]);
+    git(&d, &["commit", "-q", "-m", "c"]);
+    d
+}
 
+/// Build all seeds; independent fixtures are built in parallel, the result order is fixed.
+pub fn build(root: &Path, quick: bool) -> Corpus {
+    let shared: std::sync::Mutex<Option<(String, Vec<u8>)>> = std::sync::Mutex::new(None);
+    let shared = &shared;
+    let mut jobs: Vec<Box<dyn FnOnce() -> Vec<Seed> + Send + '_>> = Vec::new();
+    jobs.push(Box::new(|| {
+        let mut seeds: Vec<Seed> = Vec::new();
+        {
+            #[allow(unused_mut, unused_variables)]
+            let mut add = |format: &'static str, name: &str, bytes: Vec<u8>, thorough_only: bool| {
+                if bytes.is_empty() {
+                    vkit::machinery!("seed {format}/{name} is empty");
+                }
+                seeds.push(Seed { format, name: name.to_string(), bytes, thorough_only });
+            };
+            #[allow(unused_variables)]
+            let mk = |name: &str| -> PathBuf { mk_repo(root, name) };
+            (|| {
     // ---------------- repository with history ----------------
     let r = root.join("r");
     vkit::git::init(&r);
@@ -145,6 +166,9 @@ pub fn build(root: &Path) -> Corpus {
     // ---- commit-graph ----
     git(&r, &["commit-graph", "write", "--reachable", "--changed-paths"]);
     add("commit-graph", "bloom-edge", read(r.join(".git/objects/info/commit-graph")), false);
+    if quick {
+        return;
+    }
     let _ = std::fs::remove_file(r.join(".git/objects/info/commit-graph"));
     git(&r, &["commit-graph", "write", "--reachable"]);
     add("commit-graph", "plain", read(r.join(".git/objects/info/commit-graph")), true);
@@ -160,6 +184,34 @@ pub fn build(root: &Path) -> Corpus {
         }
     }
 
+
+            })();
+        }
+        seeds
+    }));
+    jobs.push(Box::new(|| {
+        let mut seeds: Vec<Seed> = Vec::new();
+        {
+            #[allow(unused_mut, unused_variables)]
+            let mut add = |format: &'static str, name: &str, bytes: Vec<u8>, thorough_only: bool| {
+                if bytes.is_empty() {
+                    vkit::machinery!("seed {format}/{name} is empty");
+                }
+                seeds.push(Seed { format, name: name.to_string(), bytes, thorough_only });
+            };
+            #[allow(unused_variables)]
+            let mk = |name: &str| -> PathBuf { mk_repo(root, name) };
+            (|| {
+    let r = root.join("p");
+    vkit::git::init(&r);
+    write(r.join("a"), b"a\n");
+    write(r.join("b/c"), b"c\n");
+    git(&r, &["add", "."]);
+    git(&r, &["commit", "-q", "-m", "one"]);
+    write(r.join("a"), b"a2\n");
+    git(&r, &["commit", "-q", "-a", "-m", "two"]);
+    git(&r, &["tag", "-a", "-m", "annotated", "v1.0", "HEAD"]);
+    let head = String::from_utf8_lossy(&git(&r, &["rev-parse", "HEAD"])).trim().to_string();
     // ---- packs: idx v2, idx v1, midx, bitmap ----
     git(&r, &["repack", "-q", "-a", "-d", "-b"]);
     let packdir = r.join(".git/objects/pack");
@@ -170,12 +222,14 @@ pub fn build(root: &Path) -> Corpus {
         add("ewah", "pack-bitmap", bitmap[32..].to_vec(), false);
     }
     let pack = one_file(&packdir, ".pack");
+    add("pack-header", "pack", read(&pack)[..64.min(read(&pack).len())].to_vec(), false);
+    if !quick {
     let v1dir = root.join("v1");
     let _ = std::fs::create_dir_all(&v1dir);
     let _ = std::fs::copy(&pack, v1dir.join("p.pack"));
     git(&r, &["index-pack", "--index-version=1", "-o", v1dir.join("p.idx").to_str().unwrap(), v1dir.join("p.pack").to_str().unwrap()]);
     add("pack-idx", "v1", read(v1dir.join("p.idx")), true);
-    add("pack-header", "pack", read(&pack)[..64.min(read(&pack).len())].to_vec(), false);
+    }
     // a second pack, then the multi-pack-index
     write(r.join("n"), b"n\n");
     git(&r, &["add", "n"]);
@@ -183,8 +237,10 @@ pub fn build(root: &Path) -> Corpus {
     git(&r, &["repack", "-q", "-d"]);
     git(&r, &["multi-pack-index", "write"]);
     add("midx", "two-packs", read(packdir.join("multi-pack-index")), false);
-    git(&r, &["multi-pack-index", "write", "--bitmap"]);
-    add("midx", "ridx", read(packdir.join("multi-pack-index")), true);
+    if !quick {
+        git(&r, &["multi-pack-index", "write", "--bitmap"]);
+        add("midx", "ridx", read(packdir.join("multi-pack-index")), true);
+    }
 
     // ---- wire protocol samples straight from git upload-pack ----
     let adv0 = git(&r, &["upload-pack", "--advertise-refs", "."]);
@@ -229,28 +285,70 @@ pub fn build(root: &Path) -> Corpus {
         add("fetch-v1", "ack+pack", v, false);
     }
 
-    // ---------------- index variants (fresh repositories so each has exactly the wanted features) ----------------
-    let mk = |name: &str| -> PathBuf {
-        let d = root.join(name);
-        vkit::git::init(&d);
-        write(d.join("a"), b"a\n");
-        write(d.join("b/c"), b"c\n");
-        write(d.join("b/d"), b"d\n");
-        write(d.join("e/f/g"), b"g\n");
-        git(&d, &["add", "."]);
-        git(&d, &["commit", "-q", "-m", "c"]);
-        d
-    };
+
+            })();
+        }
+        seeds
+    }));
+    jobs.push(Box::new(|| {
+        let mut seeds: Vec<Seed> = Vec::new();
+        {
+            #[allow(unused_mut, unused_variables)]
+            let mut add = |format: &'static str, name: &str, bytes: Vec<u8>, thorough_only: bool| {
+                if bytes.is_empty() {
+                    vkit::machinery!("seed {format}/{name} is empty");
+                }
+                seeds.push(Seed { format, name: name.to_string(), bytes, thorough_only });
+            };
+            #[allow(unused_variables)]
+            let mk = |name: &str| -> PathBuf { mk_repo(root, name) };
+            (|| {
     // v3: extended flags (intent-to-add + skip-worktree)
     let d = mk("i3");
     write(d.join("ita"), b"x\n");
     git(&d, &["add", "-N", "ita"]);
     git(&d, &["update-index", "--skip-worktree", "a"]);
     add("index", "v3-extended", read(d.join(".git/index")), false);
+
+            })();
+        }
+        seeds
+    }));
+    jobs.push(Box::new(|| {
+        let mut seeds: Vec<Seed> = Vec::new();
+        {
+            #[allow(unused_mut, unused_variables)]
+            let mut add = |format: &'static str, name: &str, bytes: Vec<u8>, thorough_only: bool| {
+                if bytes.is_empty() {
+                    vkit::machinery!("seed {format}/{name} is empty");
+                }
+                seeds.push(Seed { format, name: name.to_string(), bytes, thorough_only });
+            };
+            #[allow(unused_variables)]
+            let mk = |name: &str| -> PathBuf { mk_repo(root, name) };
+            (|| {
     // v4: prefix-compressed paths
     let d = mk("i4");
     git(&d, &["update-index", "--index-version", "4"]);
     add("index", "v4", read(d.join(".git/index")), false);
+
+            })();
+        }
+        seeds
+    }));
+    jobs.push(Box::new(|| {
+        let mut seeds: Vec<Seed> = Vec::new();
+        {
+            #[allow(unused_mut, unused_variables)]
+            let mut add = |format: &'static str, name: &str, bytes: Vec<u8>, thorough_only: bool| {
+                if bytes.is_empty() {
+                    vkit::machinery!("seed {format}/{name} is empty");
+                }
+                seeds.push(Seed { format, name: name.to_string(), bytes, thorough_only });
+            };
+            #[allow(unused_variables)]
+            let mk = |name: &str| -> PathBuf { mk_repo(root, name) };
+            (|| {
     // REUC: resolved conflict
     let d = mk("ireuc");
     git(&d, &["checkout", "-q", "-b", "o"]);
@@ -264,6 +362,24 @@ pub fn build(root: &Path) -> Corpus {
     write(d.join("a"), b"resolved\n");
     git(&d, &["add", "a"]);
     add("index", "v2-reuc", read(d.join(".git/index")), false);
+
+            })();
+        }
+        seeds
+    }));
+    jobs.push(Box::new(|| {
+        let mut seeds: Vec<Seed> = Vec::new();
+        {
+            #[allow(unused_mut, unused_variables)]
+            let mut add = |format: &'static str, name: &str, bytes: Vec<u8>, thorough_only: bool| {
+                if bytes.is_empty() {
+                    vkit::machinery!("seed {format}/{name} is empty");
+                }
+                seeds.push(Seed { format, name: name.to_string(), bytes, thorough_only });
+            };
+            #[allow(unused_variables)]
+            let mk = |name: &str| -> PathBuf { mk_repo(root, name) };
+            (|| {
     // UNTR + EOIE + IEOT
     let d = mk("iuntr");
     write(d.join(".gitignore"), b"*.o\n");
@@ -278,15 +394,56 @@ pub fn build(root: &Path) -> Corpus {
     git_env(&d, &[("GIT_TEST_INDEX_THREADS", "2")], &["status", "--porcelain"], None);
     git_env(&d, &[("GIT_TEST_INDEX_THREADS", "2")], &["status", "--porcelain"], None);
     add("index", "v2-untr-eoie-ieot", read(d.join(".git/index")), false);
+    if quick {
+        return;
+    }
     git_env(&d, &[("GIT_TEST_INDEX_THREADS", "2")], &["update-index", "--index-version", "4"], None);
     git_env(&d, &[("GIT_TEST_INDEX_THREADS", "2")], &["status", "--porcelain"], None);
     add("index", "v4-untr-eoie-ieot", read(d.join(".git/index")), true);
+
+            })();
+        }
+        seeds
+    }));
+    jobs.push(Box::new(|| {
+        if quick { return Vec::new(); }
+        let mut seeds: Vec<Seed> = Vec::new();
+        {
+            #[allow(unused_mut, unused_variables)]
+            let mut add = |format: &'static str, name: &str, bytes: Vec<u8>, thorough_only: bool| {
+                if bytes.is_empty() {
+                    vkit::machinery!("seed {format}/{name} is empty");
+                }
+                seeds.push(Seed { format, name: name.to_string(), bytes, thorough_only });
+            };
+            #[allow(unused_variables)]
+            let mk = |name: &str| -> PathBuf { mk_repo(root, name) };
+            (|| {
     // long path (name length field saturates at 0xfff)
     let d = mk("ilong");
     let blob = String::from_utf8_lossy(&git(&d, &["rev-parse", "HEAD:a"])).trim().to_string();
     let long: String = (0..41).map(|i| format!("{:0100}", i)).collect::<Vec<_>>().join("/");
     git(&d, &["update-index", "--add", "--cacheinfo", &format!("100644,{blob},{long}")]);
     add("index", "v2-path-0xfff", read(d.join(".git/index")), true);
+
+            })();
+        }
+        seeds
+    }));
+    jobs.push(Box::new(|| {
+        if quick { return Vec::new(); }
+        let mut seeds: Vec<Seed> = Vec::new();
+        {
+            #[allow(unused_mut, unused_variables)]
+            let mut add = |format: &'static str, name: &str, bytes: Vec<u8>, thorough_only: bool| {
+                if bytes.is_empty() {
+                    vkit::machinery!("seed {format}/{name} is empty");
+                }
+                seeds.push(Seed { format, name: name.to_string(), bytes, thorough_only });
+            };
+            #[allow(unused_variables)]
+            let mk = |name: &str| -> PathBuf { mk_repo(root, name) };
+            (|| {
     // sparse index (sparse directory entries + sdir extension)
     let d = mk("isparse");
     let sp = vkit::git::try_git(&d, &["sparse-checkout", "init", "--cone", "--sparse-index"]);
@@ -294,24 +451,61 @@ pub fn build(root: &Path) -> Corpus {
         let _ = vkit::git::try_git(&d, &["sparse-checkout", "set", "b"]);
         add("index", "v3-sparse", read(d.join(".git/index")), true);
     }
+
+            })();
+        }
+        seeds
+    }));
+    jobs.push(Box::new(|| {
+        if quick { return Vec::new(); }
+        let mut seeds: Vec<Seed> = Vec::new();
+        {
+            #[allow(unused_mut, unused_variables)]
+            let mut add = |format: &'static str, name: &str, bytes: Vec<u8>, thorough_only: bool| {
+                if bytes.is_empty() {
+                    vkit::machinery!("seed {format}/{name} is empty");
+                }
+                seeds.push(Seed { format, name: name.to_string(), bytes, thorough_only });
+            };
+            #[allow(unused_variables)]
+            let mk = |name: &str| -> PathBuf { mk_repo(root, name) };
+            (|| {
     // split index (link extension)
     let d = mk("isplit");
     git(&d, &["update-index", "--split-index"]);
     write(d.join("a"), b"changed\n");
     write(d.join("new"), b"new\n");
     git(&d, &["add", "a", "new"]);
-    let mut shared_index = None;
+
     if let Ok(rd) = std::fs::read_dir(d.join(".git")) {
         for e in rd.flatten() {
             let n = e.file_name().to_string_lossy().to_string();
             if n.starts_with("sharedindex.") {
-                shared_index = Some((n, read(e.path())));
+                *shared.lock().unwrap() = Some((n, read(e.path())));
             }
         }
     }
-    if shared_index.is_some() {
+    if shared.lock().unwrap().is_some() {
         add("index", "v2-link", read(d.join(".git/index")), true);
     }
+
+            })();
+        }
+        seeds
+    }));
+    jobs.push(Box::new(|| {
+        let mut seeds: Vec<Seed> = Vec::new();
+        {
+            #[allow(unused_mut, unused_variables)]
+            let mut add = |format: &'static str, name: &str, bytes: Vec<u8>, thorough_only: bool| {
+                if bytes.is_empty() {
+                    vkit::machinery!("seed {format}/{name} is empty");
+                }
+                seeds.push(Seed { format, name: name.to_string(), bytes, thorough_only });
+            };
+            #[allow(unused_variables)]
+            let mk = |name: &str| -> PathBuf { mk_repo(root, name) };
+            (|| {
     // UNTR ewah bitmaps as stand-alone ewah seeds come from the pack bitmap above; add a hand-made one with a run + literals
     let mut e = Vec::new();
     e.extend_from_slice(&192u32.to_be_bytes()); // bits
@@ -328,5 +522,22 @@ pub fn build(root: &Path) -> Corpus {
     add("mailmap", "sample", b"# c\nProper Name <proper@email> Commit Name <commit@email>\n<proper@email> <commit@email>\nName <commit@email>\n".to_vec(), false);
     add("config-text", "sample", b"[core]\n\tbare = false ; c\n[remote \"origin\"]\n\turl = a\\\n b\n\tfetch = +refs/heads/*:refs/remotes/origin/*\n[a.b]\n\tk\n\tq = \"x \\\"y\\\" \\n\" # c\n[include]\n\tpath = ./x\n".to_vec(), false);
     add("credentials", "sample", b"protocol=https\nhost=example.com:8080\npath=a/b.git\nusername=u\npassword=p\nurl=https://u:p@h/x\nquit=1\n".to_vec(), false);
+
+            })();
+        }
+        seeds
+    }));
+    let results: Vec<std::thread::Result<Vec<Seed>>> = std::thread::scope(|s| {
+        let hs: Vec<_> = jobs.into_iter().map(|j| s.spawn(j)).collect();
+        hs.into_iter().map(|h| h.join()).collect()
+    });
+    let mut seeds = Vec::new();
+    for r in results {
+        match r {
+            Ok(v) => seeds.extend(v),
+            Err(p) => std::panic::resume_unwind(p),
+        }
+    }
+    let shared_index = shared.lock().unwrap().take();
     Corpus { seeds, shared_index }
 }
